@@ -20,6 +20,58 @@ class Engine(DbEngine):
     trusted = ["theorems C15_* (Refs.v): the address half is an observation of the OS (mremap may_move); the logical half is the append-only log"]
     assumptions = ["address stability is decided by the kernel's mremap(MAYMOVE) choice: observed, not modelled beyond the oracle flag"]
 
+    # a request that is refused AFTER its bytes were appended (a deletion request naming another author's event) races a
+    # store from another thread; afterwards more events are stored.  Whatever the interleaving, every event stored during
+    # the run must still read back, by the offset its store returned, as the bytes submitted (re-read after the last store)
+    races = {"quick": 150, "thorough": 3000}
+
+    def make_race(self, rng):
+        from dbgen import AUTHORS, fake_id
+        sub = random.Random(rng.getrandbits(64))
+        g = HistGen(sub, {"new": 3, "addr": 1}, sub.choice([0, 1, 3])).run()
+        foreign = g.new_event(kind=1, pk=AUTHORS[1], created=50, tags=[])
+        foreign["content"] = b"theirs"
+        foreign["id"] = fake_id(foreign)
+        g.op_store(foreign)
+        setup = [g.render_op(op) for op in g.ops]
+        me = bytes([0xC5]) * 32
+        reqs = []
+        for j in range(sub.choice([1, 1, 2])):
+            r = g.new_event(kind=5, pk=me, created=60 + j, tags=[[b"e", foreign["id"].hex().encode()]] + ([[b"e", b"00" * 32]] if sub.random() < 0.3 else []))
+            r["content"] = b"x" * sub.choice([0, 10, 300])
+            r["id"] = fake_id(r)
+            reqs.append(r)
+        mine = []
+        for j in range(sub.choice([1, 2, 3])):
+            e = g.new_event(kind=1, pk=bytes([0xC6]) * 32, created=70 + j, tags=[])
+            e["content"] = b"m" * sub.choice([1, 40, 200, 1900])
+            e["id"] = fake_id(e)
+            mine.append(e)
+        later = []
+        for j in range(sub.choice([1, 2, 3])):
+            e = g.new_event(kind=1, pk=bytes([0xC7]) * 32, created=80 + j, tags=[])
+            e["content"] = b"l" * sub.choice([1, 40, 200, 1900])
+            e["id"] = fake_id(e)
+            later.append(e)
+        progs = [["store " + C.t_event(r) for r in reqs], ["store " + C.t_event(e) for e in mine]]
+        sub.shuffle(progs)
+        line = self.race_line(sub, g, setup, progs, [e["id"] for e in mine + later], after=["store " + C.t_event(e) for e in later])
+        return ("refused-request-race", line), {"n": len(mine) + len(later)}
+
+    def judge_race(self, meta, out):
+        rc = re.search(r" refcheck=(\d+),(\d+) ", out)
+        if rc and int(rc.group(2)) > 0:
+            return Verdict(oracle_ok=False, cls="referenced-bytes-changed",
+                           detail="%s of %s events stored while a refused request raced them no longer read back, by the offset their store returned, as the bytes submitted" % (rc.group(2), rc.group(1)), outcome="changed")
+        parsed = self.race_parse(out)
+        if not parsed or len(parsed[1]) < meta.get("n", 0):
+            return Verdict(corr_ok=False, cls="unparsable-output", detail=out[:120], outcome="unparsable")
+        bad = [f for f in parsed[1] if not f.startswith("10")]
+        if bad:
+            return Verdict(oracle_ok=False, cls="stored-event-lost",
+                           detail="an event whose store succeeded observes as has/deleted = %s after the run" % bad[0][:2], outcome="lost")
+        return Verdict(outcome="race-ok", nontrivial=True)
+
     def generate(self, rng, tier):
         out = []
         n = 60 if tier == "quick" else 1500
